@@ -10,6 +10,7 @@ import (
 
 	"github.com/resonatehq/resonate/internal/metrics"
 	"github.com/resonatehq/resonate/internal/util"
+	"github.com/resonatehq/resonate/internal/verifhook"
 )
 
 type AIO interface {
@@ -107,6 +108,7 @@ func (a *aio) Signal(cancel <-chan any) <-chan any {
 
 		select {
 		case cqe := <-a.cq:
+			verifhook.Point("aio.signal.beforeBuffer")
 			util.Assert(a.buffer == nil, "buffer must be nil")
 			a.buffer = cqe
 		case <-cancel:
